@@ -1345,13 +1345,22 @@ func ruleDownstreamErrorPath(r *Run) {
 		}
 	}
 	nSrc := 0
+	// in the queryer, or in a function of the module the queryer asks for it (a method of the
+	// response that hands its error list back as an error)
+	var queryerFns []*ssa.Function
 	for _, fn := range r.P.Funcs {
-		if topFn(fn).Pkg == nil || shortPkg(topFn(fn).Pkg.Pkg.Path()) != "queryer" {
+		if topFn(fn).Pkg != nil && shortPkg(topFn(fn).Pkg.Pkg.Path()) == "queryer" {
+			queryerFns = append(queryerFns, fn)
+		}
+	}
+	fromQueryer := r.P.CG.ReachableAll(queryerFns)
+	for _, fn := range r.P.Funcs {
+		if topFn(fn).Pkg == nil || shortPkg(topFn(fn).Pkg.Pkg.Path()) != "queryer" && !fromQueryer[fn] {
 			continue
 		}
 		for _, ins := range allInstrs(fn) {
 			mi, ok := ins.(*ssa.MakeInterface)
-			if !ok || namedOf(mi.X.Type()) != modPath+"/gqlerrors.ErrorList" || !dependsOnField(mi.X, "Errors") {
+			if !ok || namedOf(mi.X.Type()) != modPath+"/gqlerrors.ErrorList" || !dependsOnResponseErrors(mi.X) {
 				continue
 			}
 			nSrc++
@@ -1490,6 +1499,40 @@ func ruleDownstreamErrorPath(r *Run) {
 	}
 	r.AtLeast(rule, "sources (service error lists returned by the queryer)", nSrc, 1)
 	r.AtLeast(rule, "hand-overs of downstream errors", n, 2)
+}
+
+// dependsOnResponseErrors: v is computed from the Errors field of a requests.Response (read
+// through a pointer or from a struct value).
+func dependsOnResponseErrors(v ssa.Value) bool {
+	seen := map[ssa.Value]bool{}
+	var f func(v ssa.Value) bool
+	f = func(v ssa.Value) bool {
+		if seen[v] {
+			return false
+		}
+		seen[v] = true
+		switch x := v.(type) {
+		case *ssa.UnOp:
+			if fa, ok := x.X.(*ssa.FieldAddr); ok && x.Op == token.MUL && fieldOf(fa) != nil && fieldOf(fa).Name() == "Errors" && namedOf(fa.X.Type()) == respType {
+				return true
+			}
+		case *ssa.Field:
+			if fl := fieldOfVal(x); fl != nil && fl.Name() == "Errors" && namedOf(x.X.Type()) == respType {
+				return true
+			}
+		}
+		ins, ok := v.(ssa.Instruction)
+		if !ok {
+			return false
+		}
+		for _, op := range operandsOf(ins) {
+			if f(op) {
+				return true
+			}
+		}
+		return false
+	}
+	return f(v)
 }
 
 // ruleNodeFieldSignature (R13d.sig): the predicate that recognises the relay lookup field
